@@ -362,6 +362,41 @@ def kv_flag_docs(run, shard, thorough: bool) -> None:
     run.count('kv_flag_docs', idx)
 
 
+KV_ALPHA = ['"', 'a', ' ', '\n', '{', '}', '[', ']', '!']
+
+
+def kv_exhaustive(run, shard, thorough: bool) -> None:
+    """Every KeyValues1 text up to length L over the structure alphabet: Keyvalues.parse ends in a tree or KeyValError and
+    nothing else, and says the same when the text arrives character by character."""
+    L = 7 if thorough else 6
+    optsets = [dict(zip(KV_OPTS, bits)) for bits in itertools.product((False, True), repeat=len(KV_OPTS))]
+    flagsets = ({}, {'a': True}, {'a': False})
+    idx = 0
+    evals = 0
+    for n in range(1, L + 1):
+        for tup in itertools.product(KV_ALPHA, repeat=n):
+            idx += 1
+            if not mine(idx, shard):
+                continue
+            text = ''.join(tup)
+            for kw in ({}, dict(optsets[idx % len(optsets)], flags=flagsets[idx % 3])):
+                out = kv_outcome(text, kw)
+                evals += 1
+                if out[0] == 'BAD-EXC':
+                    key = 'kvparse-indexerror-after-skipped-block' if (out[1] == 'IndexError' and 'pop from empty' in out[2]) else 'kvparse-untyped-exception'
+                    run.violation(f'Keyvalues.parse raised {out[1]}: {out[2]}', case={'text': text, 'kv_opts': dict(kw)},
+                                  engine='kv-exhaustive', key=key)
+                    continue
+                got = kv_outcome(list(text), kw)
+                if got != out:
+                    run.violation('Keyvalues.parse result depends on delivery (chars)', witness={'reference': out, 'got': got},
+                                  case={'text': text, 'kv_opts': dict(kw)}, engine='kv-exhaustive', key='kvparse-chunk-dependent')
+    run.case_bulk(evals, evals)
+    run.count('kv_exhaustive_texts_x_options', evals)
+    run.count('kv_parse_calls', 2 * evals)
+    run.extra['kv_exhaustive'] = {'alphabet': [repr(c) for c in KV_ALPHA], 'max_len': L}
+
+
 def main(run, shard=(0, 1)) -> None:
     thorough = run.tier == 'thorough'
     import srctools.tokenizer as tk
@@ -375,9 +410,10 @@ def main(run, shard=(0, 1)) -> None:
     focused_cores(run, shard, thorough)  # stop the probe early: it only has to show reach, and costs time on hot functions
     random_docs(run, shard, thorough)
     kv_flag_docs(run, shard, thorough)
+    kv_exhaustive(run, shard, thorough)
     run.sample({'text': '"a\r', 'chunks': ['"a', '\r'], 'opts': '0010000'}, 'exhaustive')
     probe.check_reached(run)
-    run.require('exhaustive_text_x_options', 'focused_text_x_options', 'deliveries_compared', 'kv_parse_calls')
+    run.require('exhaustive_text_x_options', 'focused_text_x_options', 'deliveries_compared', 'kv_parse_calls', 'kv_exhaustive_texts_x_options')
 
 
 def replay(run, data) -> None:
